@@ -192,7 +192,7 @@ func (r *coreRun) logM(l *slog.Entry, ev coreEvent, rec map[string]any) {
 			ctx = nil // a nil context
 		} else {
 			for _, kv := range cv {
-				if kv[1] > 0 {
+				if kv[0] > 0 { // the value may be 0: present all the same
 					ctx = context.WithValue(ctx, mkCtxKey(kv[0]), kv[1])
 				}
 			}
